@@ -88,7 +88,13 @@ def run(ctx):
         ctx.bridge('translator: %d syntactic facts about the merge machinery of sorts.py' % len(_msi['facts']), True)
     except Exception as e:   # noqa
         ctx.bridge('translator: merge machinery facts extracted', False, repr(e))
-    ctx.prove(['PetlProofs.Props.C11', 'PetlProofs.Props.C05Shape'], REQUIRED + ['Petl.C05.merge_machinery_as_modelled'])
+    from translators import fingerprints as _fp
+    try:
+        _fpi = _fp.generate()
+        ctx.bridge('translator: fingerprints of the petl sources this check vouches for (%d entries over all properties)' % _fpi['names'], True)
+    except Exception as e:   # noqa
+        ctx.bridge('translator: source fingerprints extracted', False, repr(e))
+    ctx.prove(['PetlProofs.Props.C11', 'PetlProofs.Props.C05Shape', 'PetlProofs.Snapshot.C11'], REQUIRED + ['Petl.C05.merge_machinery_as_modelled', 'Petl.Snapshot.C11_sources_as_validated'])
     rng = ctx.rng
     ops = operators(etl)
     tmpd = tempfile.mkdtemp(prefix='petl_c11_')
